@@ -170,6 +170,22 @@ pub fn check(stats: &mut Stats, input: &Input, max_error: f64) {
         let gaps = (1..fit.len()).filter(|i| !biteq(fit[*i - 1][3], fit[*i][0])).count();
         stats.fail("C08", &format!("fit.chain_gap.{}", blocks), &format!("{} {} gaps in {} curves; first: curve {} ends at {:?}, curve {} starts at {:?}", replay(), gaps, fit.len(), i - 1, fit[i - 1][3], i, fit[i][0]));
     }
+    // fit_curve_loop (the same block loop with tangents taken across the ends of the list): connected, exact ends (repair f35a364)
+    if len >= 2 {
+        let p3 = pts.clone();
+        if let Outcome::Done(Some(lf)) = guarded(TIMEOUT, move || fit_curve_loop::<Curve<Coord2>>(&p3, max_error)) {
+            let lf: Vec<Cub> = lf.iter().map(cub_of).collect();
+            stats.count("fit_curve_loop.checked");
+            if lf.is_empty() { stats.fail("C08", "fit_loop.empty_chain_for_two_or_more_points", &replay()); }
+            else if lf.iter().all(finite_cub) {
+                if !biteq(lf[0][0], pts[0]) { stats.fail("C08", &format!("fit_loop.start_not_exact.{}", class), &format!("{} chain starts at {:?}, first point {:?}", replay(), lf[0][0], pts[0])); }
+                if !biteq(lf[lf.len() - 1][3], pts[len - 1]) { stats.fail("C08", &format!("fit_loop.end_not_exact.{}", class), &format!("{} chain ends at {:?}, last point {:?}", replay(), lf[lf.len() - 1][3], pts[len - 1])); }
+                if let Some(i) = (1..lf.len()).find(|i| !biteq(lf[*i - 1][3], lf[*i][0])) {
+                    stats.fail("C08", &format!("fit_loop.chain_gap.{}", blocks), &format!("{} fit_curve_loop: curve {} ends at {:?}, curve {} starts at {:?} ({} curves)", replay(), i - 1, lf[i - 1][3], i, lf[i][0], lf.len()));
+                }
+            }
+        }
+    }
     // every input point within max_error of the chain
     let sampled: Vec<Sampled> = fit.iter().map(|c| sample(c, SAMPLES)).collect();
     let mut worst = (0.0f64, 0usize);
